@@ -55,7 +55,7 @@ COARSE = {
 
 class Res:
     """tokens [(kind, lit bytes|None, space)], err (class name | None), crash (status | None), notes (events/flags)"""
-    __slots__ = ("toks", "err", "crash", "notes", "raw")
+    __slots__ = ("toks", "err", "crash", "notes", "raw", "cls")
 
     def keys(self, X):
         return [(k, l) for k, l, _ in self.toks if k not in (X.TEOF, X.TNEWLINE)]
@@ -99,12 +99,14 @@ def parse_real(line):
 def parse_drv(line):
     o = Res()
     o.raw = line
-    o.toks, o.err, o.crash, o.notes = [], None, None, set()
+    o.toks, o.err, o.crash, o.notes, o.cls = [], None, None, set(), None
     for w in line.split(" "):
         if not w:
             continue
         if w[0] == "!":
             o.err = w[1:]
+        elif w[0] == "%":
+            o.cls = w[1:]
         elif w[0] == "@":
             o.notes = set(w[1:].split(","))
         else:
@@ -402,6 +404,102 @@ def gen_case1(rng, cfg, H):
             lines.append(rng.choice(["#", "# ", "#pragma omp x y 1", "#pragma", "#line 7", '#line 9 "f.c"', '# 3 "g.c"']))
             H["other-directives"] += 1
         lines.append(text_of_use(rng, use_line(rng, cfg, names, H), H))
+    return "\n".join(lines) + "\n"
+
+
+
+# --- the class of function_like_correct_init ----------------------------------------------------------
+def gen_simple(rng, H):
+    """object-like macros (referring to each other and to themselves) together with function-like macros of
+    one to three parameters (no `#`, no `...`), no empty replacement list, no function-like name inside a
+    replacement list; all definitions first; every function-like name in the text is invoked with the right
+    number of non-empty arguments that hold no macro name and no new-line"""
+    objs = rng.sample(OBJ, rng.randint(0, 4))
+    funs = rng.sample(FUN, rng.randint(1, 3))
+    sig = {f: rng.randint(1, 3) for f in funs}
+    lines = []
+    order = objs + funs
+    rng.shuffle(order)
+
+    def body(params):
+        out = []
+        for _ in range(rng.choice([1, 1, 2, 3, 4, 6, 9])):
+            r = rng.random()
+            if params and r < 0.4:
+                out.append(rng.choice(params))
+            elif objs and r < 0.6:
+                out.append(rng.choice(objs))
+            elif r < 0.72:
+                out.append(rng.choice(PLAIN))
+            elif r < 0.82:
+                out.append(rng.choice(NUMS))
+            elif r < 0.87:
+                out.append(rng.choice(STRS))
+            elif r < 0.93:
+                out.append(rng.choice(["(", ")", ","]))
+            else:
+                out.append(rng.choice(PUNCT))
+        return out
+
+    for n in order:
+        if n in sig:
+            ps = PARAMS[:sig[n]]
+            m = MacroDef(n, True, ps, False, body(ps))
+        else:
+            m = MacroDef(n, False, [], False, body([]))
+        lines.append(m.text(rng))
+        H["simple:macros"] += 1
+
+    def arg(depth=0):
+        out = []
+        for _ in range(rng.choice([1, 1, 2, 3, 5])):
+            r = rng.random()
+            if r < 0.35:
+                out.append(rng.choice(PLAIN + PARAMS))
+            elif r < 0.6:
+                out.append(rng.choice(NUMS))
+            elif r < 0.7:
+                out.append(rng.choice(STRS))
+            elif r < 0.85 and depth < 2:
+                inner = arg(depth + 1)
+                if rng.random() < 0.5:
+                    inner = inner + [","] + arg(depth + 1)
+                out += ["("] + inner + [")"]
+            else:
+                out.append(rng.choice(PUNCT))
+        return out
+
+    for _ in range(rng.choice([1, 2, 3, 5])):
+        toks = []
+        for _ in range(rng.choice([1, 2, 3, 5, 8])):
+            r = rng.random()
+            if r < 0.35:
+                f = rng.choice(funs)
+                toks.append((f, True))
+                toks.append(("(", False))
+                for k in range(sig[f]):
+                    if k:
+                        toks.append((",", False))
+                    toks += [(a, False) for a in arg()]
+                toks.append((")", False))
+                H["simple:invocations"] += 1
+            elif objs and r < 0.6:
+                toks.append((rng.choice(objs), True))
+            elif r < 0.75:
+                toks.append((rng.choice(PLAIN), True))
+            elif r < 0.88:
+                toks.append((rng.choice(NUMS), True))
+            else:
+                toks.append((rng.choice(PUNCT + ["(", ")", ","]), True))
+        out = ""
+        for t, brk in toks:
+            g = sp(rng)
+            if brk and out and rng.random() < 0.1:
+                g = "\n"
+            if out and g == "" and needs_space(out, t):
+                g = " "
+            out += g + t
+        lines.append(out)
     return "\n".join(lines) + "\n"
 
 
@@ -874,6 +972,11 @@ def examine1(X, texts, label, expect=None, asan=None):
             tc = theorem_class(t)
             if tc:
                 X.tclass[tc] = X.tclass.get(tc, 0) + 1
+            # the class of function_like_correct_init, decided by the driver with the theorem's own tests
+            if M is not None and getattr(M[i], "cls", None):
+                X.tclass["whole:" + M[i].cls] = X.tclass.get("whole:" + M[i].cls, 0) + 1
+                if not tc:
+                    X.tclass["whole-only"] = X.tclass.get("whole-only", 0) + 1
         r, rn = R[i], Rn[i]
         for k, _, _ in r.toks:
             X.kinds_seen[k] = X.kinds_seen.get(k, 0) + 1
@@ -1247,6 +1350,14 @@ def run(ck):
         cfg_o = Cfg(obj_only=True)
         examine(X, [gen_case(rng, cfg_o, H) for _ in range(150 if quick else 1200)], "object-like-macro-sets",
                 asan=40 if quick else 300)
+    # 2c. simple function-like sets: the class of CprocVerif.C12.function_like_correct_init (own generator state:
+    #     the other streams are what they were before this one was added)
+    if not ck.violations:
+        import random
+        rng_s = random.Random("c12-simple-%r" % (rng.getstate()[1][0],))
+        simple = [gen_simple(rng_s, H) for _ in range(150 if quick else 1200)]
+        examine(X, simple, "simple-function-like-sets", asan=40 if quick else 300)
+        ck.sample({"simple function-like set": simple[0][:600]})
     # 3. redefinitions
     if not ck.violations:
         red = [gen_redef(rng, H) for _ in range(200 if quick else 2500)]
@@ -1290,15 +1401,25 @@ def run(ck):
     n_units = max(1, X.tclass.get("units", 0))
     n_tot = X.tclass.get("object-like-total", 0)
     n_obj = n_tot + X.tclass.get("object-like", 0)
+    n_wf, n_wo = X.tclass.get("whole:F", 0), X.tclass.get("whole:O", 0)
+    n_any = n_obj + X.tclass.get("whole-only", 0)
     ck.cov["theorem_class_coverage"] = {
         "generated_units": X.tclass.get("units", 0),
         "object_like_correct_total (all macros object-like, directives before the text)": n_tot,
         "object_like_correct per text segment (all macros object-like)": n_obj,
+        "function_like_correct_init, table with function-like macros (tblOKb/textOKb evaluated by the driver "
+        "on the table the model builds from the leading directives)": n_wf,
+        "function_like_correct_init, object-like table": n_wo,
+        "some whole-stream theorem": n_any,
         "fraction_total": round(n_tot / n_units, 4), "fraction_object_like": round(n_obj / n_units, 4),
-        "note": "units with function-like macros are covered by the component theorems (define_*, macroequal_*, "
+        "fraction_function_like_whole_stream": round(n_wf / n_units, 4),
+        "fraction_some_whole_stream_theorem": round(n_any / n_units, 4),
+        "note": "the other units with function-like macros (macro names inside arguments, `#`, `...`, empty "
+                "arguments or replacement lists, directives after the first text line, names of function-like "
+                "macros inside replacement lists) are covered by the component theorems (define_*, macroequal_*, "
                 "split_args_correct, expandfunc_is_collect, ctxnext_delivers_flat, lazy_substitution_correct, "
-                "function_like_step_correct, stringize_correct, painted_never_expands) and by the differential run, "
-                "not by a proved whole-stream equivalence"}
+                "function_like_step_correct, stringize_correct, painted_never_expands) and by the differential "
+                "run, not by a proved whole-stream equivalence"}
     ck.cov["diagnostic_classes_hit"] = X.errs
     ck.cov["model_events_and_reference_flags"] = X.events
     ck.cov["known_finding_hits"] = X.known
